@@ -16,6 +16,8 @@ def fits : PTy → Val → Prop
   | .optScalar t, v => isNone v = true ∨ (coerceScalar t v).isSome = true
   | .cls _, _ => True
   | .optCls _, _ => True
+  | .listOf _, _ => True
+  | .dictOf _, _ => True
 
 /-- every init arg is a parameter of `params` and fits its type -/
 def ArgsValid (params : List IParam) (ia : KV) : Prop :=
@@ -44,6 +46,8 @@ theorem coerceScalar_idem (t : String) (v y : Val) (h : coerceScalar t v = some 
   | spec _ _ _ => simp [coerceScalar] at h
   | bare _ => simp [coerceScalar] at h
   | nested _ _ => simp [coerceScalar] at h
+  | lst _ => simp [coerceScalar] at h
+  | dct _ => simp [coerceScalar] at h
 
 theorem fits_of_adaptValue (rec : String → Option Val → Val → Except Err Val) (ty : PTy) (prev : Option Val)
     (v y : Val) (h : adaptValueWith rec ty prev v = .ok y) : fits ty y := by
@@ -70,6 +74,8 @@ theorem fits_of_adaptValue (rec : String → Option Val → Val → Except Err V
       · cases h
   | cls b => trivial
   | optCls b => trivial
+  | listOf b => trivial
+  | dictOf b => trivial
 
 theorem mem_setKV (k : String) (v : Val) : ∀ (kv : KV) (e : String × Val), e ∈ setKV k v kv → e = (k, v) ∨ e ∈ kv
   | [], e, h => by
@@ -144,6 +150,14 @@ theorem keepArgs_valid (rec : String → Option Val → Val → Except Err Val) 
         simp only [hty] at hk
         cases hk
         exact ⟨p, hp, by rw [hty]; trivial⟩
+      | listOf b =>
+        simp only [hty] at hk
+        cases hk
+        exact ⟨p, hp, by rw [hty]; trivial⟩
+      | dictOf b =>
+        simp only [hty] at hk
+        cases hk
+        exact ⟨p, hp, by rw [hty]; trivial⟩
 
 /-- every survivor comes from a previous init arg that the new class has a parameter for and accepts -/
 theorem keepArgs_origin (rec : String → Option Val → Val → Except Err Val) (params : List IParam) (pia : KV) :
@@ -184,6 +198,8 @@ theorem coerceScalar_none_of_isNone (t : String) (v : Val) (ht : t ≠ "NoneType
   | spec _ _ _ => rfl
   | bare _ => rfl
   | nested _ _ => rfl
+  | lst _ => rfl
+  | dct _ => rfl
 
 /-- a `None` carried over from the previous class is discarded when the NEW class's parameter of that name is a
     non-Optional scalar: the entry contributes nothing to what is kept -/
@@ -275,20 +291,33 @@ def countSpecs : Val → Nat
   | .lit _ _ => 0
   | .bare _ => 0
   | .nested _ _ => 0
+  | .lst xs => countSpecsList xs
+  | .dct kvs => countSpecsKV kvs
 def countSpecsKV : KV → Nat
   | [] => 0
   | (_, v) :: r => countSpecs v + countSpecsKV r
+def countSpecsList : List Val → Nat
+  | [] => 0
+  | v :: r => countSpecs v + countSpecsList r
 end
 
-/-- every object reference of entry `j` points to an earlier entry -/
+/-- the log indices an argument value refers to -/
+def argRefs : Arg → List Nat
+  | .obj i => [i]
+  | .lst l => l.filterMap id
+  | .dct l => l.filterMap (·.2)
+  | .lit _ _ => []
+  | .raw => []
+
+/-- every object reference of entry `j` (directly, or inside a list / dict argument) points to an earlier entry -/
 def Backward (log : List Ctor) : Prop :=
-  ∀ j (hj : j < log.length), ∀ a ∈ (log[j]).args, ∀ i, a.2 = Arg.obj i → i < j
+  ∀ j (hj : j < log.length), ∀ a ∈ (log[j]).args, ∀ i ∈ argRefs a.2, i < j
 
 /-- an argument value refers only to entries that exist -/
-def ArgInLog (a : Arg) (n : Nat) : Prop := ∀ i, a = Arg.obj i → i < n
+def ArgInLog (a : Arg) (n : Nat) : Prop := ∀ i ∈ argRefs a, i < n
 
 theorem backward_append_one (log : List Ctor) (c : Ctor) (hb : Backward log)
-    (hc : ∀ a ∈ c.args, ∀ i, a.2 = Arg.obj i → i < log.length) : Backward (log ++ [c]) := by
+    (hc : ∀ a ∈ c.args, ∀ i ∈ argRefs a.2, i < log.length) : Backward (log ++ [c]) := by
   intro j hj a ha i hi
   by_cases hlt : j < log.length
   · have : (log ++ [c])[j] = log[j] := List.getElem_append_left hlt
@@ -302,6 +331,11 @@ theorem backward_append_one (log : List Ctor) (c : Ctor) (hb : Backward log)
     rw [this] at ha
     exact hc a ha i hi
 
+theorem objIdx_mem_refs (a : Arg) (i : Nat) (h : objIdx a = some i) : i ∈ argRefs a := by
+  cases a <;> simp [objIdx] at h
+  subst h
+  simp [argRefs]
+
 mutual
 theorem inst_spec : ∀ (v : Val) (log : List Ctor), Backward log →
     ∃ new, (inst v log).1 = log ++ new ∧ new.length = countSpecs v ∧ Backward (inst v log).1
@@ -314,16 +348,29 @@ theorem inst_spec : ∀ (v : Val) (log : List Ctor), Backward log →
     · simp only [inst]
       exact backward_append_one _ _ h3 (fun a ha i hi => h4 a ha i hi)
     · intro i hi
-      simp only [inst] at hi ⊢
-      cases hi
+      simp only [inst, argRefs, List.mem_singleton] at hi ⊢
+      subst hi
       simp
-  | .lit ty tok, log, hb => ⟨[], by simp [inst], by simp [countSpecs], by simpa [inst] using hb, by intro i hi; simp [inst] at hi⟩
-  | .spec none ia dk, log, hb => ⟨[], by simp [inst], by simp [countSpecs], by simpa [inst] using hb, by intro i hi; simp [inst] at hi⟩
-  | .bare kvs, log, hb => ⟨[], by simp [inst], by simp [countSpecs], by simpa [inst] using hb, by intro i hi; simp [inst] at hi⟩
-  | .nested k v, log, hb => ⟨[], by simp [inst], by simp [countSpecs], by simpa [inst] using hb, by intro i hi; simp [inst] at hi⟩
+  | .lit ty tok, log, hb => ⟨[], by simp [inst], by simp [countSpecs], by simpa [inst] using hb, by intro i hi; simp [inst, argRefs] at hi⟩
+  | .spec none ia dk, log, hb => ⟨[], by simp [inst], by simp [countSpecs], by simpa [inst] using hb, by intro i hi; simp [inst, argRefs] at hi⟩
+  | .bare kvs, log, hb => ⟨[], by simp [inst], by simp [countSpecs], by simpa [inst] using hb, by intro i hi; simp [inst, argRefs] at hi⟩
+  | .nested k v, log, hb => ⟨[], by simp [inst], by simp [countSpecs], by simpa [inst] using hb, by intro i hi; simp [inst, argRefs] at hi⟩
+  | .lst xs, log, hb => by
+    obtain ⟨new, h1, h2, h3, h4⟩ := instList_spec xs log hb
+    refine ⟨new, by simp only [inst, h1], by simp [countSpecs, h2], by simpa only [inst] using h3, ?_⟩
+    intro i hi
+    simp only [inst, argRefs, List.mem_filterMap, id_eq, exists_eq_right] at hi ⊢
+    exact h4 i hi
+  | .dct kvs, log, hb => by
+    obtain ⟨new, h1, h2, h3, h4⟩ := instDict_spec kvs log hb
+    refine ⟨new, by simp only [inst, h1], by simp [countSpecs, h2], by simpa only [inst] using h3, ?_⟩
+    intro i hi
+    simp only [inst, argRefs, List.mem_filterMap] at hi ⊢
+    obtain ⟨e, he, hei⟩ := hi
+    exact h4 e he i hei
 theorem instArgs_spec : ∀ (ia : KV) (log : List Ctor), Backward log →
     ∃ new, (instArgs ia log).1 = log ++ new ∧ new.length = countSpecsKV ia ∧ Backward (instArgs ia log).1
-      ∧ ∀ a ∈ (instArgs ia log).2, ∀ i, a.2 = Arg.obj i → i < (instArgs ia log).1.length
+      ∧ ∀ a ∈ (instArgs ia log).2, ∀ i ∈ argRefs a.2, i < (instArgs ia log).1.length
   | [], log, hb => ⟨[], by simp [instArgs], by simp [countSpecsKV], by simpa [instArgs] using hb, by intro a ha; simp [instArgs] at ha⟩
   | (k, v) :: r, log, hb => by
     obtain ⟨n1, a1, a2, a3, a4⟩ := inst_spec v log hb
@@ -341,6 +388,46 @@ theorem instArgs_spec : ∀ (ia : KV) (log : List Ctor), Backward log →
         simp only [List.length_append]
         omega
       · exact b4 a ha i hi
+theorem instList_spec : ∀ (xs : List Val) (log : List Ctor), Backward log →
+    ∃ new, (instList xs log).1 = log ++ new ∧ new.length = countSpecsList xs ∧ Backward (instList xs log).1
+      ∧ ∀ i, some i ∈ (instList xs log).2 → i < (instList xs log).1.length
+  | [], log, hb => ⟨[], by simp [instList], by simp [countSpecsList], by simpa [instList] using hb, by intro i hi; simp [instList] at hi⟩
+  | v :: r, log, hb => by
+    obtain ⟨n1, a1, a2, a3, a4⟩ := inst_spec v log hb
+    obtain ⟨n2, b1, b2, b3, b4⟩ := instList_spec r (inst v log).1 a3
+    refine ⟨n1 ++ n2, ?_, ?_, ?_, ?_⟩
+    · simp only [instList]
+      rw [b1, a1, List.append_assoc]
+    · simp [countSpecsList, a2, b2]
+    · simpa only [instList] using b3
+    · intro i hi
+      simp only [instList, List.mem_cons] at hi ⊢
+      rcases hi with hi | hi
+      · have := a4 i (objIdx_mem_refs _ _ hi.symm)
+        rw [b1]
+        simp only [List.length_append]
+        omega
+      · exact b4 i hi
+theorem instDict_spec : ∀ (kvs : KV) (log : List Ctor), Backward log →
+    ∃ new, (instDict kvs log).1 = log ++ new ∧ new.length = countSpecsKV kvs ∧ Backward (instDict kvs log).1
+      ∧ ∀ e ∈ (instDict kvs log).2, ∀ i, e.2 = some i → i < (instDict kvs log).1.length
+  | [], log, hb => ⟨[], by simp [instDict], by simp [countSpecsKV], by simpa [instDict] using hb, by intro e he; simp [instDict] at he⟩
+  | (k, v) :: r, log, hb => by
+    obtain ⟨n1, a1, a2, a3, a4⟩ := inst_spec v log hb
+    obtain ⟨n2, b1, b2, b3, b4⟩ := instDict_spec r (inst v log).1 a3
+    refine ⟨n1 ++ n2, ?_, ?_, ?_, ?_⟩
+    · simp only [instDict]
+      rw [b1, a1, List.append_assoc]
+    · simp [countSpecsKV, a2, b2]
+    · simpa only [instDict] using b3
+    · intro e he i hi
+      simp only [instDict, List.mem_cons] at he ⊢
+      rcases he with rfl | he
+      · have := a4 i (objIdx_mem_refs _ _ hi)
+        rw [b1]
+        simp only [List.length_append]
+        omega
+      · exact b4 e he i hi
 end
 
 mutual
@@ -353,6 +440,12 @@ theorem inst_grows : ∀ (v : Val) (log : List Ctor), ∃ new, (inst v log).1 = 
   | .spec none _ _, log => ⟨[], by simp [inst]⟩
   | .bare _, log => ⟨[], by simp [inst]⟩
   | .nested _ _, log => ⟨[], by simp [inst]⟩
+  | .lst xs, log => by
+    obtain ⟨n, h⟩ := instList_grows xs log
+    exact ⟨n, by simp only [inst, h]⟩
+  | .dct kvs, log => by
+    obtain ⟨n, h⟩ := instDict_grows kvs log
+    exact ⟨n, by simp only [inst, h]⟩
 theorem instArgs_grows : ∀ (ia : KV) (log : List Ctor), ∃ new, (instArgs ia log).1 = log ++ new
   | [], log => ⟨[], by simp [instArgs]⟩
   | (k, v) :: r, log => by
@@ -361,12 +454,210 @@ theorem instArgs_grows : ∀ (ia : KV) (log : List Ctor), ∃ new, (instArgs ia 
     refine ⟨n1 ++ n2, ?_⟩
     simp only [instArgs]
     rw [h2, h1, List.append_assoc]
+theorem instList_grows : ∀ (xs : List Val) (log : List Ctor), ∃ new, (instList xs log).1 = log ++ new
+  | [], log => ⟨[], by simp [instList]⟩
+  | v :: r, log => by
+    obtain ⟨n1, h1⟩ := inst_grows v log
+    obtain ⟨n2, h2⟩ := instList_grows r (inst v log).1
+    refine ⟨n1 ++ n2, ?_⟩
+    simp only [instList]
+    rw [h2, h1, List.append_assoc]
+theorem instDict_grows : ∀ (kvs : KV) (log : List Ctor), ∃ new, (instDict kvs log).1 = log ++ new
+  | [], log => ⟨[], by simp [instDict]⟩
+  | (k, v) :: r, log => by
+    obtain ⟨n1, h1⟩ := inst_grows v log
+    obtain ⟨n2, h2⟩ := instDict_grows r (inst v log).1
+    refine ⟨n1 ++ n2, ?_⟩
+    simp only [instDict]
+    rw [h2, h1, List.append_assoc]
 end
 
 /-- the keys of the constructor call are exactly the init_args keys, in order -/
 theorem instArgs_keys : ∀ (ia : KV) (log : List Ctor), (instArgs ia log).2.map (·.1) = ia.map (·.1)
   | [], log => by simp [instArgs]
   | (k, v) :: r, log => by simp [instArgs, instArgs_keys r]
+
+/-! ### containers -/
+
+/-- two lists of the same length whose members are related position by position -/
+inductive Pointwise {α β : Type} (R : α → β → Prop) : List α → List β → Prop
+  | nil : Pointwise R [] []
+  | cons {a : α} {b : β} {as : List α} {bs : List β} : R a b → Pointwise R as bs → Pointwise R (a :: as) (b :: bs)
+
+theorem Pointwise.length_eq {α β : Type} {R : α → β → Prop} : ∀ {l1 : List α} {l2 : List β}, Pointwise R l1 l2 → l1.length = l2.length
+  | _, _, .nil => rfl
+  | _, _, .cons _ t => by simp [t.length_eq]
+
+theorem Pointwise.of_mem_right {α β : Type} {R : α → β → Prop} : ∀ {l1 : List α} {l2 : List β}, Pointwise R l1 l2 →
+    ∀ y ∈ l2, ∃ x ∈ l1, R x y
+  | _, _, .nil, y, hy => by cases hy
+  | _, _, .cons (a := a) h t, y, hy => by
+    rcases List.mem_cons.mp hy with rfl | hy'
+    · exact ⟨a, List.mem_cons_self, h⟩
+    · obtain ⟨x, hx, hr⟩ := t.of_mem_right y hy'
+      exact ⟨x, List.mem_cons_of_mem _ hx, hr⟩
+
+theorem Pointwise.map_left {α α' β : Type} (f : α → α') (R : α' → β → Prop) :
+    ∀ (l : List α) (ys : List β), Pointwise R (l.map f) ys ↔ Pointwise (fun a y => R (f a) y) l ys
+  | [], ys => by
+    constructor
+    · intro h; cases h; exact .nil
+    · intro h; cases h; exact .nil
+  | a :: r, ys => by
+    constructor
+    · intro h
+      cases h with
+      | cons hd tl => exact .cons hd ((Pointwise.map_left f R r _).mp tl)
+    · intro h
+      cases h with
+      | cons hd tl => exact .cons hd ((Pointwise.map_left f R r _).mpr tl)
+
+theorem dictPrev_nonempty (P : KV) (k : String) (hP : P ≠ []) : dictPrev (some (.dct P)) k = getKV k P := by
+  cases P with
+  | nil => exact absurd rfl hP
+  | cons e r => rfl
+
+/-- key by key: the result has the same keys in the same order, and the value at every key is the adaptation of the
+    given value with the previous value OF THAT KEY -/
+theorem adaptEntries_iff (rec : String → Option Val → Val → Except Err Val) (b : String) (prev : Option Val) :
+    ∀ (kvs ys : KV), adaptEntries rec b prev kvs = .ok ys ↔
+      Pointwise (fun kv y => y.1 = kv.1 ∧ rec b (dictPrev prev kv.1) kv.2 = .ok y.2) kvs ys
+  | [], ys => by
+    simp only [adaptEntries]
+    constructor
+    · intro h; cases h; exact Pointwise.nil
+    · intro h; cases h; rfl
+  | (k, v) :: r, ys => by
+    simp only [adaptEntries]
+    constructor
+    · intro h
+      split at h
+      · cases h
+      · rename_i y hy
+        split at h
+        · cases h
+        · rename_i ys' hys
+          cases h
+          exact Pointwise.cons ⟨rfl, hy⟩ ((adaptEntries_iff rec b prev r ys').mp hys)
+    · intro h
+      cases h with
+      | cons hd tl =>
+        rename_i y ys'
+        obtain ⟨hk, hy⟩ := hd
+        have := (adaptEntries_iff rec b prev r ys').mpr tl
+        simp only at hk hy
+        simp only [hy, this]
+        cases y
+        simp only at hk
+        subst hk
+        rfl
+
+/-- item by item with the given list of previous values -/
+theorem adaptItems_iff (rec : String → Option Val → Val → Except Err Val) (b : String) :
+    ∀ (xs : List Val) (ps : List (Option Val)) (ys : List Val), ps.length = xs.length →
+      (adaptItems rec b ps xs = .ok ys ↔ Pointwise (fun (pv : Option Val × Val) y => rec b pv.1 pv.2 = .ok y) (ps.zip xs) ys)
+  | [], ps, ys, hl => by
+    have : ps = [] := by cases ps with | nil => rfl | cons _ _ => simp at hl
+    subst this
+    simp only [adaptItems, List.zip_nil_right]
+    constructor
+    · intro h; cases h; exact Pointwise.nil
+    · intro h; cases h; rfl
+  | v :: vs, ps, ys, hl => by
+    cases ps with
+    | nil => simp at hl
+    | cons p ps' =>
+      have hl' : ps'.length = vs.length := by simpa using hl
+      simp only [adaptItems, List.head?_cons, Option.getD_some, List.tail_cons, List.zip_cons_cons]
+      constructor
+      · intro h
+        split at h
+        · cases h
+        · rename_i y hy
+          split at h
+          · cases h
+          · rename_i ys' hys
+            cases h
+            exact Pointwise.cons hy ((adaptItems_iff rec b vs ps' ys' hl').mp hys)
+      · intro h
+        cases h with
+        | cons hd tl =>
+          rename_i y ys'
+          have := (adaptItems_iff rec b vs ps' ys' hl').mpr tl
+          simp only at hd
+          simp only [hd, this]
+
+theorem listPrevs_length (prev : Option Val) (n : Nat) : (listPrevs prev n).length = n := by
+  unfold listPrevs
+  split
+  · split
+    · rename_i h; simp [h]
+    · simp
+  · simp
+
+theorem inst_obj_bounds (v : Val) (log : List Ctor) (i : Nat) (h : objIdx (inst v log).2 = some i) :
+    log.length ≤ i ∧ i < (inst v log).1.length := by
+  cases v with
+  | spec cp ia dk =>
+    cases cp with
+    | none => simp [inst, objIdx] at h
+    | some c =>
+      obtain ⟨n, hn⟩ := instArgs_grows ia log
+      simp only [inst, objIdx, Option.some.injEq] at h
+      subst h
+      simp only [inst, List.length_append, List.length_singleton, hn]
+      omega
+  | lit _ _ => simp [inst, objIdx] at h
+  | bare _ => simp [inst, objIdx] at h
+  | nested _ _ => simp [inst, objIdx] at h
+  | lst _ => simp [inst, objIdx] at h
+  | dct _ => simp [inst, objIdx] at h
+
+/-- the items of a list are built in list order: their log indices increase strictly -/
+theorem instList_sorted : ∀ (xs : List Val) (log : List Ctor),
+    List.Pairwise (· < ·) ((instList xs log).2.filterMap id) ∧ ∀ i ∈ (instList xs log).2.filterMap id, log.length ≤ i
+  | [], log => by simp [instList]
+  | v :: r, log => by
+    obtain ⟨ih1, ih2⟩ := instList_sorted r (inst v log).1
+    obtain ⟨n1, h1⟩ := inst_grows v log
+    have hlen : log.length ≤ (inst v log).1.length := by rw [h1]; simp
+    simp only [instList, List.filterMap_cons, id_eq]
+    cases ho : objIdx (inst v log).2 with
+    | none =>
+      simp only
+      exact ⟨ih1, fun i hi => Nat.le_trans hlen (ih2 i hi)⟩
+    | some i0 =>
+      obtain ⟨b1, b2⟩ := inst_obj_bounds v log i0 ho
+      simp only [List.pairwise_cons, List.mem_cons]
+      refine ⟨⟨fun j hj => ?_, ih1⟩, fun j hj => ?_⟩
+      · have := ih2 j hj
+        omega
+      · rcases hj with rfl | hj
+        · exact b1
+        · exact Nat.le_trans hlen (ih2 j hj)
+
+/-- the same for the values of a dict, in dict order -/
+theorem instDict_sorted : ∀ (kvs : KV) (log : List Ctor),
+    List.Pairwise (· < ·) ((instDict kvs log).2.filterMap (·.2)) ∧ ∀ i ∈ (instDict kvs log).2.filterMap (·.2), log.length ≤ i
+  | [], log => by simp [instDict]
+  | (k, v) :: r, log => by
+    obtain ⟨ih1, ih2⟩ := instDict_sorted r (inst v log).1
+    obtain ⟨n1, h1⟩ := inst_grows v log
+    have hlen : log.length ≤ (inst v log).1.length := by rw [h1]; simp
+    simp only [instDict, List.filterMap_cons]
+    cases ho : objIdx (inst v log).2 with
+    | none =>
+      simp only
+      exact ⟨ih1, fun i hi => Nat.le_trans hlen (ih2 i hi)⟩
+    | some i0 =>
+      obtain ⟨b1, b2⟩ := inst_obj_bounds v log i0 ho
+      simp only [List.pairwise_cons, List.mem_cons]
+      refine ⟨⟨fun j hj => ?_, ih1⟩, fun j hj => ?_⟩
+      · have := ih2 j hj
+        omega
+      · rcases hj with rfl | hj
+        · exact b1
+        · exact Nat.le_trans hlen (ih2 j hj)
 
 /-! ### short forms -/
 
